@@ -82,6 +82,8 @@ def c06(tier, seed):
         crop = ["Maize", "Wheat", "Sorghum", "Tomato", "Barley", "Soybean", "Potato"][i]
         scs.append(S(crop, rnd.choice(["SandyLoam", "Loam", "ClayLoam"]), seed=seed + i, irr=irr, seasons=2,
                      iwc={"value": ["WP"]} if irr["method"] == 4 else None))
+    # a season sown on 31 December (the CO2 level of a season is that of its planting year)
+    scs.append(S("Barley", "Loam", seed=seed + 18, plant_md=(12, 31), year=2001, seasons=3, regime="warm"))
     # a CO2 series that rises and then stays on a plateau for consecutive planting years (C3 crop: the adjustment differs from year to year, then repeats)
     scs.append(S("Barley", "Loam", seed=seed + 19, seasons=4, co2={"co2_data": [[1990, 355.0], [2001, 371.0], [2002, 384.0], [2003, 384.0], [2004, 384.0], [2010, 395.0]]}))
     scs += [
@@ -233,6 +235,12 @@ def c19(tier, seed):
                      iwc=rnd.choice([{"value": ["FC"] * nl, "depth_layer": list(range(1, nl + 1))}, {"value": ["WP"] * nl, "depth_layer": list(range(1, nl + 1))}])))
     # no table at all: CR = GwIn = 0
     scs.append(S("Maize", "Loam", seed=seed + 7))
+    # observation dates handed over as datetime.date objects / day-resolution numpy datetimes / Timestamps (not strings)
+    for k, dt_ in enumerate(("date", "np64", "timestamp")):
+        scs.append(S(["Wheat", "Tomato", "Barley"][k], ["Loam", "SandyLoam", "ClayLoam"][k], seed=rnd.randrange(10 ** 6),
+                     gw={"water_table": "Y", "method": "Variable", "dates": ["2001/04/01", "2001/06/15", "2001/09/30"], "values": [1.0, 2.2, 1.3], "_date_type": dt_}))
+        scs.append(S(["Maize", "Potato", "Sorghum"][k], "Loam", seed=rnd.randrange(10 ** 6),
+                     gw={"water_table": "Y", "method": "Constant", "dates": ["2001/04/20", "2001/07/01"], "values": [1.8, 0.9], "_date_type": dt_}))
     # the table JUMPS up by several compartments from one day to the next (Constant method, several observations), the day after a storm has
     # saturated the upper part of the profile: every compartment now under the table must be filled, not only those above the first saturated one
     import datetime as _dt
